@@ -3488,7 +3488,6 @@ orc_compiler_mmx_register_rules (OrcTarget *target)
   orc_rule_register (rule_set, "convsuslw", mmx_rule_convsuslw, NULL);
   orc_rule_register (rule_set, "mulslq", mmx_rule_mulslq, NULL);
   orc_rule_register (rule_set, "mulhsl", mmx_rule_mulhsl, NULL);
-  orc_rule_register (rule_set, "convsssql", mmx_rule_convsssql_mmx41, NULL);
   REG(cmpeqq);
 #endif
 
@@ -3497,6 +3496,10 @@ orc_compiler_mmx_register_rules (OrcTarget *target)
       ORC_TARGET_MMX_SSE4_2);
 
   REG(cmpgtsq);
+#ifndef MMX
+  /* uses pcmpgtq, which is SSE 4.2 */
+  orc_rule_register (rule_set, "convsssql", mmx_rule_convsssql_mmx41, NULL);
+#endif
 
   /* SSE 4a -- no rules */
 }
